@@ -525,16 +525,46 @@ def _run_refactor(args):
     return {"variant": name, "status": "ran", "fired": fired, "errors": errors, "constructs": constructs}
 
 
+def _workers(n_jobs: int) -> int:
+    """as many workers as there are jobs, cores (16 at most) and memory for (each worker may take about 2.5 GB)"""
+    w = min(16, os.cpu_count() or 1, max(1, n_jobs))
+    try:
+        for line in open("/proc/meminfo"):
+            if line.startswith("MemAvailable:"):
+                w = max(1, min(w, int(int(line.split()[1]) / 1024 / 1024 / 2.5)))
+    except OSError:
+        pass
+    return w
+
+
+def _pmap(fn, jobs: list) -> list:
+    """fn over jobs in worker processes; jobs whose worker died (out of memory on a crowded machine) are redone one by one
+    in this process"""
+    from concurrent.futures.process import BrokenProcessPool
+    done: dict = {}
+    try:
+        with ProcessPoolExecutor(max_workers=_workers(len(jobs))) as ex:
+            futs = {i: ex.submit(fn, j) for i, j in enumerate(jobs)}
+            for i, f in futs.items():
+                try:
+                    done[i] = f.result()
+                except BrokenProcessPool:
+                    pass
+    except BrokenProcessPool:
+        pass
+    for i, j in enumerate(jobs):
+        if i not in done:
+            done[i] = fn(j)
+    return [done[i] for i in range(len(jobs))]
+
+
 def run_for_property(prop: str) -> dict:
     from .props import PROPERTIES
     root = os.environ.get("TUCAN_REPO", "/repo")
     rules = set(PROPERTIES[prop]["rules"]) | set(PROPERTIES[prop].get("thorough_rules", []))
     todo = by_rule(rules)
     jobs = [(prop, v.name, root) for v in todo]
-    out = []
-    with ProcessPoolExecutor(max_workers=min(16, max(1, len(jobs)))) as ex:
-        for r in ex.map(_run_one, jobs):
-            out.append(r)
+    out = _pmap(_run_one, jobs)
     disagreements = []
     n_fire = n_silent = n_skip = 0
     for v, r in zip(todo, out):
@@ -562,8 +592,7 @@ def run_for_property(prop: str) -> dict:
     rdirs = ["renamed:both"] + [f"rewritten:{h}" for h in ("invert-if", "temp-return", "const-extract", "reorder-defs", "fstring-to-format")] + rdirs
     n_ref = n_undecided = 0
     if rdirs:
-        with ProcessPoolExecutor(max_workers=min(16, len(rdirs))) as ex:
-            rout = list(ex.map(_run_refactor, [(prop, d, root) for d in rdirs]))
+        rout = _pmap(_run_refactor, [(prop, d, root) for d in rdirs])
         for r in rout:
             r["expected"] = "no finding"
             if r["status"] == "skipped":
